@@ -341,6 +341,17 @@ def _run_jobs(jobs):
     return results
 
 
+def _round_robin(rejected, group):
+    """Order rejections so that every (clause, combo) group gets its first members reported (and their replay
+    files written) before any group's later members: core keeps replay files for the first 100 only."""
+    seen, keyed = {}, []
+    for rj in rejected:
+        g = group(rj)
+        seen[g] = seen.get(g, 0) + 1
+        keyed.append((seen[g], rj["index"], rj))
+    return [rj for _n, _i, rj in sorted(keyed, key=lambda t: (t[0], t[1]))]
+
+
 def main(chk, replay=None):
     t = TIERS[chk.tier]
     load_combos()
@@ -377,7 +388,7 @@ def main(chk, replay=None):
     results = _run_jobs(jobs)
     traces = [{"id": case_id(j), "init": r["init"], "events": r["events"]} for j, r in zip(jobs, results)]
     tv = tlc.validate_traces("TraceC13", "TraceC13.cfg", traces, timeout=3000, chunk=3000)
-    for rj in tv["rejected"]:
+    for rj in _round_robin(tv["rejected"], lambda rj: (rj["clause"], jobs[rj["index"]]["cb"])):
         j, r = jobs[rj["index"]], results[rj["index"]]
         chk.violation("%s|%s" % (rj["clause"], case_id(j)), rj["clause"], abstract_case(j),
                       {"event": {k: v for k, v in r["events"][0].items()}, "raw": r["raw"]})
